@@ -43,6 +43,8 @@ pub struct TcpScript {
     pub target: String,
     /// cut the client-server link once this many upstream chunks have reached the target
     pub cut_after: Option<usize>,
+    /// "app" / "target": that side resets its connection (instead of closing it) once the upstream bytes have arrived
+    pub reset: Option<String>,
 }
 
 fn free_port() -> u16 {
@@ -362,7 +364,8 @@ const PROMPT: Duration = Duration::from_millis(2500);
 /// where the server dialled, what arrived on each side, who saw end-of-stream, and whether the end
 /// was seen promptly after the side that ends the flow closed
 pub async fn tcp_flow(client_port: u16, sc: TcpScript, links: Arc<std::sync::Mutex<Vec<tokio::task::AbortHandle>>>) -> String {
-    let TcpScript { kind, host, up, down, target_closes_first, target, cut_after } = sc;
+    let TcpScript { kind, host, up, down, target_closes_first, target, cut_after, reset } = sc;
+    let (reset_app, reset_target) = (reset.as_deref() == Some("app"), reset.as_deref() == Some("target"));
     let Ok(listener) = TcpListener::bind("127.0.0.1:0").await else { return "no-loopback".to_owned() };
     let tport = listener.local_addr().unwrap().port();
     let listener = if target == "up" {
@@ -384,7 +387,7 @@ pub async fn tcp_flow(client_port: u16, sc: TcpScript, links: Arc<std::sync::Mut
     let seen = Arc::new(Mutex::new(Seen::default()));
     let seen2 = seen.clone();
     let down2 = down.clone();
-    let wait_for = if cut_after.is_some() { usize::MAX } else { total_up };
+    let wait_for = if cut_after.is_some() || reset_app { usize::MAX } else { total_up };
     let target_task = tokio::spawn(async move {
         let Some(listener) = listener else { return false };
         let Ok(Ok((mut t, _))) = tokio::time::timeout(Duration::from_secs(4), listener.accept()).await else { return false };
@@ -401,8 +404,21 @@ pub async fn tcp_flow(client_port: u16, sc: TcpScript, links: Arc<std::sync::Mut
                     return true;
                 }
                 Ok(Ok(n)) => seen2.lock().await.got.extend_from_slice(&buf[..n]),
+                Ok(Err(_)) if reset_app => {
+                    let mut s = seen2.lock().await;
+                    s.eof = true;
+                    s.eof_at = Some(std::time::Instant::now());
+                    return true;
+                }
                 _ => break,
             }
+        }
+        if reset_target {
+            #[allow(deprecated)]
+            let _ = t.set_linger(Some(Duration::from_secs(0)));
+            seen2.lock().await.closed_at = Some(std::time::Instant::now());
+            drop(t);
+            return true;
         }
         let _ = t.write_all(&down2).await;
         if target_closes_first {
@@ -484,17 +500,43 @@ pub async fn tcp_flow(client_port: u16, sc: TcpScript, links: Arc<std::sync::Mut
             }
             tokio::time::sleep(Duration::from_millis(5)).await;
         }
-        let mut l = links.lock().unwrap();
-        for h in l.drain(..) {
-            h.abort();
+        // (the client connects to the server when the local handshake is done: wait for that link to exist)
+        for _ in 0..200 {
+            if !links.lock().unwrap().is_empty() {
+                break;
+            }
+            tokio::time::sleep(Duration::from_millis(5)).await;
+        }
+        tokio::time::sleep(Duration::from_millis(20)).await;
+        {
+            let mut l = links.lock().unwrap();
+            for h in l.drain(..) {
+                h.abort();
+            }
         }
         app_closed_at = Some(std::time::Instant::now());
+    }
+    if reset_app {
+        for _ in 0..400 {
+            if seen.lock().await.got.len() >= sent + preamble.len() {
+                break;
+            }
+            tokio::time::sleep(Duration::from_millis(5)).await;
+        }
+        #[allow(deprecated)]
+        let _ = app.set_linger(Some(Duration::from_secs(0)));
+        let closed = std::time::Instant::now();
+        drop(app);
+        let dialed = tokio::time::timeout(Duration::from_secs(6), target_task).await.ok().and_then(|r| r.ok()).unwrap_or(false);
+        let s = seen.lock().await.clone();
+        let want_up: Vec<u8> = [preamble, up.concat()].concat();
+        return format!("dialed={} up={} end={} prompt={}", dialed as u8, if s.got == want_up { "ok" } else { "diff" }, s.eof as u8, s.eof_at.map(|t| (t.saturating_duration_since(closed) < PROMPT) as u8).unwrap_or(0));
     }
     let mut got_down = Vec::new();
     let mut buf = vec![0u8; 65536];
     let mut eof = false;
     let mut eof_at = None;
-    if !target_closes_first && target == "up" && cut_after.is_none() {
+    if !target_closes_first && target == "up" && cut_after.is_none() && !reset_target {
         // read the answer, then close first
         while got_down.len() < down.len() {
             match tokio::time::timeout(Duration::from_secs(4), app.read(&mut buf)).await {
@@ -534,9 +576,12 @@ pub async fn tcp_flow(client_port: u16, sc: TcpScript, links: Arc<std::sync::Mut
         // nothing to dial: the application must see the end promptly and receive nothing
         return format!("dialed={} down={} eof={} prompt={}", dialed as u8, got_down.len(), eof as u8, within(Some(handshaken), eof_at));
     }
+    if reset_target {
+        return format!("dialed={} up={} end={} prompt={}", dialed as u8, if s.got == want_up { "ok" } else { "diff" }, eof as u8, within(s.closed_at, eof_at));
+    }
     if cut_after.is_some() {
         let prefix = want_up.starts_with(&s.got) && s.got.len() >= sent;
-        return format!("dialed={} up-prefix={} eof={} target-eof={} prompt={}", dialed as u8, if prefix { "ok" } else { "diff" }, eof as u8, s.eof as u8, within(app_closed_at, eof_at) & within(app_closed_at, s.eof_at));
+        return format!("dialed={} up-prefix={} eof={} target-eof={} prompt={}", dialed as u8, if prefix { "ok" } else { "diff" }, eof as u8, s.eof as u8, within(app_closed_at, eof_at) & (within(app_closed_at, s.eof_at) | !dialed as u8));
     }
     format!(
         "dialed={} up={} down={} eof={} target-eof={} prompt={}",
